@@ -110,6 +110,46 @@ def gen_program(rng, opts=None):
     return prog, regs, pokes
 
 
+def chain_program(rng, n=None):
+    """Dense data-flow chains: values produced by every kind of instruction (all five loads, lui, slt, mul…) are used as
+    BOTH operands of later instructions, stored back (all three widths) and reloaded — over a four-register pool, so
+    width/sign/type mistakes of one instruction show in the next."""
+    pool = [1, 5, 10, 6]
+    n = n or rng.choice([4, 6, 9, 14])
+    prog = []
+    for k in range(n):
+        r = rng.random()
+        rd = rng.choice(pool)
+        if r < 0.3:
+            op = rng.choice(LD_OPS)
+            off = rng.choice([0, 4, 8, 12]) + (rng.choice([0, 1, 2, 3]) if op in ("lb", "lbu") else (rng.choice([0, 2]) if op in ("lh", "lhu") else 0))
+            prog.append(tok(op, rd, 2, 0, off))
+        elif r < 0.7:
+            prog.append(tok(rng.choice(R_OPS), rd, rng.choice(pool), rng.choice(pool)))
+        elif r < 0.8:
+            op = rng.choice(ST_OPS)
+            off = rng.choice([0, 4, 8, 12]) + (rng.choice([0, 1, 2, 3]) if op == "sb" else (rng.choice([0, 2]) if op == "sh" else 0))
+            prog.append(tok(op, 0, 2, rng.choice(pool), off))
+        elif r < 0.9:
+            op = rng.choice(I_OPS + SH_OPS)
+            prog.append(tok(op, rd, rng.choice(pool), 0, rng.choice([1, 31, 7, 0, 16]) if op in SH_OPS else rng.choice([1, 31, -1, 255, 7, -2048])))
+        else:
+            prog.append(tok(rng.choice(B_OPS), 0, rng.choice(pool), rng.choice(pool), 8))
+    regs = {2: DATA, 1: rng.choice(BND32), 5: rng.choice(BND32), 10: rng.randrange(2**32), 6: rng.choice([0, 1, 0xFF, 0x8000])}
+    pokes = [(DATA + i, rng.choice([0, 1, 0x7F, 0x80, 0xFF, 0xC8, 3, rng.randrange(256)])) for i in range(16)]
+    return prog, regs, pokes
+
+
+def chain_case(rng, mode, hazard=True, trace=30, run=300, dspec="-", ispec="-", suite="sim-chain"):
+    prog, regs, pokes = chain_program(rng)
+    lines = header(mode, hazard, dspec, ispec, prog, regs, pokes)
+    lines.append("sim.snap")
+    for _ in range(trace):
+        lines += ["sim.step", "sim.snap"]
+    lines += [f"sim.run {run}", "sim.snap"]
+    return Case(suite, lines, None, {"mode": mode, "hazard": hazard, "prog": prog, "regs": regs, "pokes": pokes, "d": dspec, "i": ispec})
+
+
 def cache_spec(rng, kind, prob=0.5):
     if rng.random() > prob:
         return "-"
